@@ -30,6 +30,8 @@ CLAUSE = CLAUSE + (' (RF-UNIT) every wrap-around skip computed behind the start-
 CLAUSE = CLAUSE + (" Both callers of demux_pes_packet_frame() store new_frame := TRUE for an error result (a value of its return range "
                    "other than 0 and VBI_ERR_CALLBACK): the lines of the damaged frame are dropped, so the frame cursor cannot stay at "
                    "the end of the line buffer.")
+CLAUSE = CLAUSE + (" In demux_ts_packet every test of a packet's PID against the selected PID is dominated by the test of its "
+                   "transport_error_indicator (no second, partition-dependent route drops foreign packets unexamined).")
 NOT_DECIDED = ("partition invariance as such (that feeding byte by byte yields identical frames), 'all but the first frame after "
                "damage are delivered', PES/TS header field semantics.")
 
@@ -75,6 +77,7 @@ def run(ctx, run):
     _skip_counts_from_anchor(ctx, run, P.need("demux_pes_packet", UNIT))
     _unit_fits_the_end(ctx, run, P.need("extract_data_units", UNIT))
     _frame_error_discards(ctx, run)
+    _pid_filter_behind_error_indicator(ctx, run, P.need("demux_ts_packet", UNIT))
     # partition invariance: the header validation looks only at bytes the wrap-around buffer has been
     # asked to provide (rule shared with C06)
     from . import C06
@@ -938,3 +941,45 @@ def _frame_error_discards(ctx, run):
                                   "any more" % (ex.pretty(f, i)[:50], sample, why), ex.loc(f, i),
                                   witness={"function": name, "return_range": list(rr), "sample_error": sample})
     run.floor("callers of demux_pes_packet_frame", n, 2)
+
+
+def _pid_filter_behind_error_indicator(ctx, run, f):
+    """A TS packet flagged with transport_error_indicator makes the demultiplexer drop what it has collected - whatever
+    the packet's PID.  The PID filter therefore sits behind the indicator test.  A second place that skips foreign-PID
+    packets without looking at the indicator (a fast path over whole packets in the caller's buffer) makes the outcome
+    depend on how the stream is cut into buffers: the same flagged packet is examined when it arrives in pieces and
+    skipped when it arrives whole."""
+    run.touch(f)
+    F_PID = "_vbi_dvb_demux.ts_pid"
+    n = 0
+    for bid, b in f.blocks.items():
+        t = b.term
+        if not t or "cond" not in t:
+            continue
+        hit = False
+        for lab in ("T", "F"):
+            for a in atoms.edge_atoms(f, bid, lab):
+                if a.L.has(F_PID) or (a.R is not None and a.R.has(F_PID)):
+                    hit = True
+        if not hit:
+            continue
+        n += 1
+        tei = False
+        for a in atoms.dominating_atoms(f, bid):
+            if a.R is not None and a.R.const == 0 and a.rel == "==" and a.L.node is not None:
+                e = f.exprs[ex.skip(f, a.L.node)]
+                while e["k"] == "cast" and e.get("c"):
+                    e = f.exprs[ex.skip(f, e["c"][0])]
+                if e["k"] == "bin" and e["op"] == "&" and 0x80 in (ex.const(f, e["c"][0]), ex.const(f, e["c"][1])):
+                    tei = True
+        key = "RF-DOM:demux_ts_packet:pid-filter-behind-tei@%d" % n
+        loc = "%s:%d" % (f.file, t.get("line", f.line))
+        if tei:
+            run.holds("RF-DOM", key, "the PID test `%s` is made on a packet whose transport_error_indicator was found clear"
+                      % ex.pretty(f, t["cond"])[:50], loc)
+        else:
+            run.violation("RF-DOM", key, "the PID test `%s` is not dominated by the transport_error_indicator test: a flagged packet "
+                          "of a foreign PID is skipped here but discards the collected frame on the regular path - which of the "
+                          "two happens depends on how the stream is cut into feed buffers" % ex.pretty(f, t["cond"])[:60], loc,
+                          witness={"function": f.name})
+    run.floor("tests of the selected PID in demux_ts_packet", n, 1)
